@@ -226,14 +226,15 @@ def _c13_vm_sample(d, tier, coq, build):
 CONFIG = {
     "properties_file": "Properties/C13.v",
     "proof_files": ["Base/Prelude.v", "Base/Regex.v", "Proofs/Reference.v", "Proofs/RemoteClient.v",
-                    "Proofs/RemoteSeek.v", "Proofs/RemoteRefine.v", "Proofs/Location.v"],
-    "model_files": ["Generated/GC20.v", "Generated/GC13.v", "Model/Reference.v", "Model/Registry.v",
+                    "Proofs/RemoteSeek.v", "Proofs/RemoteRefine.v", "Proofs/Location.v", "Proofs/Paging.v", "Proofs/RemotePaged.v"],
+    "model_files": ["Generated/GC20.v", "Generated/GC13.v", "Generated/GC15.v", "Model/Paging.v", "Model/Reference.v", "Model/Registry.v",
                     "Model/RemoteClient.v", "Model/RemoteSpec.v", "Model/Location.v"],
     "extract": "XC13.v",
     "ml_main": "c13_main.ml",
     "harness": "c13",
     "case_to_replay": _c13_case,
     "post_model": _c13_vm_sample,
+    "also_translate": ["C20", "C15"],   # Model/Reference.v (C20) and Model/Paging.v (C15) are imported
     "timeout_thorough": 3600,
     "assumptions": [
         "the hash function is a parameter H of the models (SHA-256 in the harness); the refinement theorem only needs that H yields well-formed digests (no collision-freeness): the body digest itself is checked by the consumer (C05)",
